@@ -31,7 +31,8 @@ Inductive xlabel :=
 | XL (lb : label)    (* a transition of the control LTS *)
 | XSetOpt            (* UCI thread: setoption -> setOptionWhenIdle *)
 | XTake              (* engine thread: setOptions: lock; swap / test pendingOptions; unlock *)
-| XApply.            (* engine thread: setOptions: params.set(...) for the options taken *)
+| XApply             (* engine thread: setOptions: params.set(...) for the options taken *)
+| XWaitOpt.          (* UCI thread: waitOptionsSet returns (isready / stop: EngineControl::waitReady, stopThread) *)
 
 Section Acc.
 Variable N : nat.
@@ -84,6 +85,7 @@ Definition xstep (x : xstate) (xl : xlabel) : option xstate :=
       | EOTaken => Some (mkX (base x) (xpend x) (xfin x) EONeed)
       | _ => None
       end
+  | XWaitOpt => if xfin x then Some x else None
   end.
 
 (** ThreadCommunicator::doSend* of thread t into mailbox m: lock(mailbox m); cmdQueue.push_back;
@@ -154,6 +156,7 @@ Definition xevents (x : xstate) (xl : xlabel) : list tev :=
       if xpend x then [Acq 0 ME; Acc 0 LPend false Plain; Acc 0 LPend true Plain; Rel 0 ME]
       else [Acq 0 ME; Acc 0 LPend false Plain; Acc 0 LFin true Plain; Rel 0 ME]
   | XApply => [Acc 0 LOpt true Plain; Acc 0 LTT true Plain]
+  | XWaitOpt => [Acq uci ME; Acc uci LFin false Plain; Rel uci ME]
   end.
 
 (** run a schedule: final state and access trace (None if it is not a path) *)
